@@ -256,9 +256,9 @@ def r3_format(src):
     return apply_pattern(src, 'format ! ( $A:args )', 'fmt_opaque()')
 
 
-ATTR_DROP = ('serde', 'strum', 'error', 'instrument', 'allow', 'default', 'doc', 'cfg_attr', 'inline', 'must_use')
+ATTR_DROP = ('serde', 'strum', 'error', 'instrument', 'allow', 'default', 'doc', 'cfg_attr', 'inline', 'must_use', 'iden')
 DERIVE_DROP = {'Serialize', 'Deserialize', 'Debug', 'Default', 'Display', 'EnumString', 'AsRefStr', 'EnumIter', 'IntoStaticStr',
-               'Error', 'Hash', 'PartialOrd', 'Ord', 'Copy'}
+               'Error', 'Hash', 'PartialOrd', 'Ord', 'Serialize_repr', 'Deserialize_repr', 'Iden'}
 
 
 def r1_attrs(src, add_structural=False, keep_derive=()):
